@@ -40,6 +40,55 @@ PROPS["C02"] = dict(
     level_note="Trusted: the reference recogniser (oracle/ref.hpp, ~60 lines, written from the statement); clang ASan/UBSan; the shim (public API only).",
 )
 
+PROPS["C03"] = dict(
+    level="exploration",
+    default_binary="c03",
+    binaries={"c03": dict(src=["props/c03.cpp"], variants=["dflt"])},
+    stages=[
+        stage("corpus", workers=1),
+        stage("family"),
+        stage("utf8"),
+        stage("bounded"),
+        stage("random", kind="rc", quick=6000, thorough=120000, max_size=100),
+    ],
+    rule="Mode-6531 local parts: (a) every 1- and 2-byte sequence, 3-byte sequences over boundary continuation values (quick) or all 255x255 "
+         "(thorough), a structured 4-byte cover, each as atom / quoted / escaped / last bytes; (b) all strings of <= 6 (quick) / <= 7 (thorough) "
+         "symbols over {a . \" \\ SP 0x01 U+0416 U+20AC U+10348 0x80 0xC3}; (c) the a.X.b / X\"q\" / \"\\X\" family over ~1000 code points; (d) grammar-based "
+         "random local parts with non-ASCII next to dots and quotes; (e) the repository corpus. Non-trivial = contains a byte >= 0x80 together with "
+         "one of . \" \\, or is a malformed-UTF-8 candidate; distinct by byte-string hash.",
+    assumptions=["reference: RFC 3629 strict decoder + RFC 5321 grammar over code points (oracle/ref.hpp), default build (no RFC6531_* option)",
+                 "validators are called with `end` on the terminating '@' or NUL"],
+    min_evaluations=dict(quick=1_000_000, thorough=30_000_000),
+    technique="differential against an independent UTF-8 + grammar reference, bounded-exhaustive UTF-8 candidate enumeration, metamorphic x-substitution, rapidcheck generation",
+    level_text="Exploration against an explicit reference model; the 1-2 byte and (thorough) 3-byte UTF-8 candidate spaces and short mixed strings are "
+               "enumerated completely, 4-byte space by a structured cover, the rest sampled.",
+    level_note="Trusted: oracle/ref.hpp (decoder + recogniser), sanitizers, shim.",
+)
+
+PROPS["C04"] = dict(
+    level="exploration",
+    default_binary="c04",
+    binaries={"c04": dict(src=["props/c04.cpp"], variants=["dflt"])},
+    stages=[
+        stage("corpus", workers=1),
+        stage("lengths"),
+        stage("bounded"),
+        stage("random", kind="rc", quick=4000, thorough=80000, max_size=100),
+    ],
+    rule="Domains: all strings of length <= 7 (quick) / <= 9 (thorough) over {a 1 - . _ !}; every label length 0-70 in first/middle/last position "
+         "and alone (3 fillings, hyphen at either end); every total length 240-260 in 4 label layouts with 0/1/2 trailing dots and a leading dot; "
+         "every byte 0x01-0xFF at first/interior/last position of a label; numeric shapes; grammar-generated and mutated ASCII and IDN host names; "
+         "the repository's domain corpora. Each is judged by is_ascii_domain and, as x@D with TLD checking off, by eav_is_email in all four "
+         "modes. Non-trivial = at least two labels, or length >= 60, or contains a hyphen; distinct by byte-string hash.",
+    assumptions=["reference: oracle/ref.hpp::host_ok written from the statement (RFC 1035 limits, LDH, optional single root dot)",
+                 "mode 6531 is judged in one direction only, on the A-label form computed by the harness with libidn2 (trusted base)"],
+    min_evaluations=dict(quick=1_000_000, thorough=20_000_000),
+    technique="differential against an independent host-name reference: bounded-exhaustive strings, complete length/byte sweeps, rapidcheck generation; one-directional A-label check for mode 6531",
+    level_text="Exploration against an explicit reference model; short-string space and the length / byte-position sweeps named in the quantifier are "
+               "enumerated completely, long mixed inputs are sampled.",
+    level_note="Trusted: oracle/ref.hpp::host_ok, libidn2 for the A-label form, sanitizers, shim.",
+)
+
 
 def stages_for(pid, tier):
     out = []
